@@ -8,6 +8,14 @@
  *                                                   32-bit word b3b2b1b0 (a8: byte b0); set_filter (block)
  *   D repeat dw dh m00 m01 m02 m10 m11 m12 m20 m21 m22
  *                                                   set repeat + transform, OP_SRC into an a8r8g8b8 dw x dh
+ *   W rk_lo rk_hi sk_lo sk_hi s_lo s_hi step off bits_lo bits_hi ctl_every ctl_off
+ *        wide scan WITH SELECTION: creates the filter for every (reconstruct, sample, bits, scale) of the ranges
+ *        (scale = s_lo + off, + step, ... <= s_hi) on one axis (the other axis is a one-tap filter; the axes
+ *        alternate).  Only SELECTED tables are logged, each as its own execution (Reset/CreateBegin/Create/
+ *        Rows, exactly the events of C): those a cheap structural pre-screen finds unusual (NULL, n or header
+ *        not as announced, a phase not summing to 65536, |coefficient| >= 16.0) plus a deterministic control
+ *        sample (every ctl_every-th creation).  The pre-screen only chooses what is shown to the trace
+ *        specification; a table it does not select is not judged.  Ends with ScanDone scanned/selected/control.
  * events:
  *   CreateBegin  arguments (written before the call: a crash leaves it unanswered)
  *   Create       ok, n, hdr[4] (only when n >= 4)
@@ -20,6 +28,7 @@
 #include "vcommon.h"
 #include <pixman.h>
 #include <unistd.h>
+#include <signal.h>
 
 #define MAXCHUNK 6000
 
@@ -88,6 +97,145 @@ log_axis (const char *axis, int from, int to, int width)
     }
 }
 
+static void
+log_begin (int rx, int ry, int sx, int sy, int scx, int scy, int bx, int by)
+{
+    vt_begin ("CreateBegin");
+    vt_str ("rx", kname[rx & 7]); vt_str ("ry", kname[ry & 7]);
+    vt_str ("sx", kname[sx & 7]); vt_str ("sy", kname[sy & 7]);
+    vt_w32 ("scale_x", (uint32_t)scx); vt_w32 ("scale_y", (uint32_t)scy);
+    vt_int ("bx", bx); vt_int ("by", by);
+    vt_end ();
+}
+
+/* what the call returned: n, header, then the n - 4 values after the header */
+static void
+log_created (void)
+{
+    vt_begin ("Create");
+    vt_bool ("ok", params != NULL);
+    vt_int ("n", n_values);
+    if (params && n_values >= 4)
+    {
+	int h[4], i;
+	for (i = 0; i < 4; i++) h[i] = (int)params[i];
+	vt_key ("hdr");
+	fprintf (vt_out, "[[%d,%d],[%d,%d],[%d,%d],[%d,%d]]",
+		 h[0] >> 16, h[0] & 0xffff, h[1] >> 16, h[1] & 0xffff,
+		 h[2] >> 16, h[2] & 0xffff, h[3] >> 16, h[3] & 0xffff);
+    }
+    vt_end ();
+    if (params && n_values > 4)
+    {
+	/* cut points taken from the header, clamped to the n values that exist */
+	long long w = params[0] >> 16, pbx = params[2] >> 16;
+	long long xend = 4;
+	if (w >= 0 && pbx >= 0 && pbx < 30)
+	    xend = 4 + (w << pbx);
+	if (xend > n_values || xend < 4) xend = n_values;
+	log_axis ("x", 4, (int)xend, (int)(w > 0 && w < n_values ? w : 0));
+	log_axis ("y", (int)xend, n_values,
+		  (int)((params[1] >> 16) > 0 && (params[1] >> 16) < n_values ? (params[1] >> 16) : 0));
+    }
+}
+
+/* ---- wide scan with selection ------------------------------------------------------------------------ */
+static volatile int cur[8];		/* arguments of the creation in progress (for the crash handler) */
+static volatile int cur_valid;
+
+static void
+scan_crash (int sig)
+{
+    char buf[400];
+    int n;
+    if (vt_out) fflush (vt_out);
+    n = snprintf (buf, sizeof buf,
+		  "\n{\"e\":\"Reset\",\"scenario\":\"scan-crash\"}\n"
+		  "{\"e\":\"CreateBegin\",\"rx\":\"%s\",\"ry\":\"%s\",\"sx\":\"%s\",\"sy\":\"%s\","
+		  "\"scale_x\":[%u,%u],\"scale_y\":[%u,%u],\"bx\":%d,\"by\":%d}\n{\"e\":\"Crash\",\"sig\":%d}\n",
+		  kname[cur[0] & 7], kname[cur[1] & 7], kname[cur[2] & 7], kname[cur[3] & 7],
+		  (unsigned)cur[4] >> 16, cur[4] & 0xffff, (unsigned)cur[5] >> 16, cur[5] & 0xffff, cur[6], cur[7], sig);
+    if (!cur_valid)
+	n = snprintf (buf, sizeof buf, "\n{\"e\":\"Crash\",\"sig\":%d}\n", sig);
+    if (vt_out && write (fileno (vt_out), buf, n) < 0) {}
+    _exit (0);
+}
+
+/* structural pre-screen: 0 = nothing unusual.  It only SELECTS tables for logging. */
+static int
+unusual (int bx, int by)
+{
+    long long w, h, k, p, pos;
+    if (!params) return 1;
+    if (n_values < 4) return 2;
+    for (k = 0; k < 4; k++)
+	if (params[k] & 0xffff) return 3;
+    w = params[0] >> 16; h = params[1] >> 16;
+    if (w < 1 || h < 1) return 4;
+    if ((params[2] >> 16) != bx || (params[3] >> 16) != by) return 5;
+    if (n_values != 4 + (w << bx) + (h << by)) return 6;
+    pos = 4;
+    for (p = 0; p < (1 << bx) + (1 << by); p++)
+    {
+	long long len = p < (1 << bx) ? w : h, sum = 0;
+	for (k = 0; k < len; k++)
+	{
+	    long long v = params[pos + k];
+	    if (v >= (1 << 20) || v <= -(1 << 20)) return 8;
+	    sum += v;
+	}
+	if (sum != 65536) return 7;
+	pos += len;
+    }
+    return 0;
+}
+
+static void
+scan (const int *a)
+{
+    long long scanned = 0, selected = 0, control = 0;
+    int rk, sk, bits, sc;
+    char name[96];
+    signal (SIGSEGV, scan_crash); signal (SIGBUS, scan_crash); signal (SIGABRT, scan_crash);
+    signal (SIGFPE, scan_crash); signal (SIGILL, scan_crash); signal (SIGALRM, scan_crash);
+    for (rk = a[0]; rk <= a[1]; rk++)
+	for (sk = a[2]; sk <= a[3]; sk++)
+	    for (bits = a[8]; bits <= a[9]; bits++)
+		for (sc = a[4] + a[7]; sc <= a[5] && sc > 0; sc += a[6])
+		{
+		    /* the scanned axis alternates; the other axis gets a one-tap filter */
+		    int onx = !(scanned & 1), why, ctl;
+		    int rx = onx ? rk : 0, ry = onx ? 0 : rk, sx = onx ? sk : 1, sy = onx ? 1 : sk;
+		    int scx = onx ? sc : 65536, scy = onx ? 65536 : sc, bx = onx ? bits : 0, by = onx ? 0 : bits;
+		    cur[0] = rx; cur[1] = ry; cur[2] = sx; cur[3] = sy; cur[4] = scx; cur[5] = scy; cur[6] = bx; cur[7] = by;
+		    cur_valid = 1;
+		    alarm (300);
+		    n_values = -1;
+		    params = pixman_filter_create_separable_convolution (&n_values, scx, scy, rx, ry, sx, sy, bx, by);
+		    alarm (0);
+		    cur_valid = 0;
+		    why = unusual (bx, by);
+		    ctl = a[10] > 0 && (scanned % a[10]) == a[11] % a[10];
+		    if (why || ctl)
+		    {
+			snprintf (name, sizeof name, "scan-%s-%d-%d-%d-%d-%c", why ? "selected" : "control", rk, sk, sc, bits,
+				  onx ? 'x' : 'y');
+			vt_reset (name);
+			log_begin (rx, ry, sx, sy, scx, scy, bx, by);
+			log_created ();
+			if (why) selected++; else control++;
+		    }
+		    scanned++;
+		    free (params);
+		    params = NULL;
+		}
+    vt_begin ("ScanDone");
+    vt_int ("scanned", scanned);
+    vt_int ("selected", selected);
+    vt_int ("control", control);
+    vt_end ();
+}
+
 int
 main (int argc, char **argv)
 {
@@ -114,41 +262,20 @@ main (int argc, char **argv)
 	    int rx, ry, sx, sy, scx, scy, bx, by;
 	    if (fscanf (in, "%d %d %d %d %d %d %d %d", &rx, &ry, &sx, &sy, &scx, &scy, &bx, &by) != 8) return 3;
 	    drop ();
-	    vt_begin ("CreateBegin");
-	    vt_str ("rx", kname[rx & 7]); vt_str ("ry", kname[ry & 7]);
-	    vt_str ("sx", kname[sx & 7]); vt_str ("sy", kname[sy & 7]);
-	    vt_w32 ("scale_x", (uint32_t)scx); vt_w32 ("scale_y", (uint32_t)scy);
-	    vt_int ("bx", bx); vt_int ("by", by);
-	    vt_end ();
+	    log_begin (rx, ry, sx, sy, scx, scy, bx, by);
 	    alarm (300);
 	    n_values = -1;
 	    params = pixman_filter_create_separable_convolution (&n_values, scx, scy, rx, ry, sx, sy, bx, by);
 	    alarm (0);
-	    vt_begin ("Create");
-	    vt_bool ("ok", params != NULL);
-	    vt_int ("n", n_values);
-	    if (params && n_values >= 4)
-	    {
-		int h[4], i;
-		for (i = 0; i < 4; i++) h[i] = (int)params[i];
-		vt_key ("hdr");
-		fprintf (vt_out, "[[%d,%d],[%d,%d],[%d,%d],[%d,%d]]",
-			 h[0] >> 16, h[0] & 0xffff, h[1] >> 16, h[1] & 0xffff,
-			 h[2] >> 16, h[2] & 0xffff, h[3] >> 16, h[3] & 0xffff);
-	    }
-	    vt_end ();
-	    if (params && n_values > 4)
-	    {
-		/* cut points taken from the header, clamped to the n values that exist */
-		long long w = params[0] >> 16, pbx = params[2] >> 16;
-		long long xend = 4;
-		if (w >= 0 && pbx >= 0 && pbx < 30)
-		    xend = 4 + (w << pbx);
-		if (xend > n_values || xend < 4) xend = n_values;
-		log_axis ("x", 4, (int)xend, (int)(w > 0 && w < n_values ? w : 0));
-		log_axis ("y", (int)xend, n_values,
-			  (int)((params[1] >> 16) > 0 && (params[1] >> 16) < n_values ? (params[1] >> 16) : 0));
-	    }
+	    log_created ();
+	}
+	else if (kind[0] == 'W')
+	{
+	    int a[12], i;
+	    for (i = 0; i < 12; i++)
+		if (fscanf (in, "%d", &a[i]) != 1) return 3;
+	    drop ();
+	    scan (a);
 	}
 	else if (kind[0] == 'S')
 	{
